@@ -157,7 +157,7 @@ Section Components.
     assert (HF : forall g, In g (filter (hit keys) gs) <-> In g gs /\ hit keys g = true) by (intros; apply filter_In).
     destruct (filter (hit keys) gs) as [|g hs]; simpl; auto.
     destruct (fold_merge1_either hs (fst g ++ keys, cmax (snd g) conf)) as [H|[h [H1 H2]]].
-    - simpl in H. destruct (cmax_either (snd g) conf) as [E|E]; rewrite E in H; auto.
+    - simpl in H. destruct (cmax_either (snd g) conf) as [E|E]; rewrite E in *; auto.
       right. exists g. destruct (proj1 (HF g)) as [Q1 Q2]; [left; reflexivity|]. auto.
     - right. exists h. destruct (proj1 (HF h)) as [Q1 Q2]; [right; exact H1|]. auto.
   Qed.
